@@ -4,10 +4,11 @@ PROP = {
   "specs.subdivision"
  ],
  "functions": [
-  "mouette.mesh.subdivision.split_edge"
+  "mouette.mesh.subdivision.split_edge",
+  "mouette.mesh.subdivision.SurfaceSubdivision.triangulate_face"
  ],
  "level": "other",
- "explanation": "Under machine-checked contract: subdivision.split_edge (polyline edge split) - documented counts (+1 vertex, +1 edge), every original vertex in place, the new vertex exactly at the centre of the split edge, the two halves join the old extremities to the new vertex, every other edge untouched, cached connectivity dropped, the object passed in IS the result. The surface and volume editing blocks rewrite shared containers through RawMeshData / prepare() and look edges up in dict tables built from numpy rows: outside the modelled subset, decided only within the stated bound by the native run-time contract against an independent reference refinement. That part is NOT a proof.",
+ "explanation": "Under machine-checked contract: subdivision.split_edge (polyline edge split) - documented counts (+1 vertex, +1 edge), every original vertex in place, the new vertex exactly at the centre of the split edge, the two halves join the old extremities to the new vertex, every other edge untouched, cached connectivity dropped, the object passed in IS the result. Also SurfaceSubdivision.triangulate_face for faces of at most four vertices: a triangle is left alone, a quad (A,B,C,D) becomes (A,B,D) in place and (B,C,D) at the end (one more face, sides keep their direction, the diagonal used once each way), every other face untouched. The other operations of the surface and volume editing blocks rewrite shared containers through RawMeshData / prepare() and look edges up in dict tables built from numpy rows: outside the modelled subset, decided only within the stated bound by the native run-time contract against an independent reference refinement. That part is NOT a proof.",
  "trusted_base": [
   "A1 CPython executes the parsed AST as pyvc models it",
   "A3 z3 is sound",
